@@ -120,6 +120,7 @@ func runLinHistory(t testing.TB, tr *tracer, backend string, bs int, G, R int, s
 		op   string
 		b, k int
 	}
+	pbudget := linBlocks / 2 // blocks that position-based Reads may consume per handle (any Read may land on either handle)
 	for g := 1; g <= G; g++ {
 		var ops []plan
 		for i := 0; i < R; i++ {
@@ -131,32 +132,54 @@ func runLinHistory(t testing.TB, tr *tracer, backend string, bs int, G, R int, s
 			if r.Intn(3) == 0 {
 				b = 0
 			}
-			op := []string{"R", "W", "R", "W", "S"}[r.Intn(5)]
+			op := []string{"R", "W", "R", "W", "S", "P"}[r.Intn(6)]
+			if op == "P" {
+				// a position-based Read of one or two blocks: every handle has a budget so that all of them stay inside the extent
+				k = 1 + r.Intn(2)
+				if pbudget < k {
+					op = "R"
+					if b > linBlocks-k {
+						b = linBlocks - k
+					}
+				} else {
+					pbudget -= k
+				}
+			}
 			ops = append(ops, plan{op, b, k})
 		}
 		wg.Add(1)
 		go func(g int, ops []plan) {
 			defer wg.Done()
 			for n, p := range ops {
-				f := files[(g+n)%len(files)]
+				hd := (g + n) % len(files)
+				f := files[hd]
 				switch p.op {
 				case "W":
 					v := int(atomic.AddInt64(&vcount, 1))
 					buf := bytes.Repeat([]byte{byte(v)}, p.k*bs)
-					tr.emit("LCall", kv{"g": g, "n": n, "op": "W", "b": p.b, "k": p.k, "v": v})
+					tr.emit("LCall", kv{"g": g, "n": n, "op": "W", "b": p.b, "k": p.k, "v": v, "hd": hd})
 					_, err := f.WriteAt(buf, int64(p.b*bs))
 					tr.emit("LRet", kv{"g": g, "n": n, "res": []int{}, "err": errStr(err)})
 				case "R":
 					buf := make([]byte, p.k*bs)
-					tr.emit("LCall", kv{"g": g, "n": n, "op": "R", "b": p.b, "k": p.k, "v": 0})
+					tr.emit("LCall", kv{"g": g, "n": n, "op": "R", "b": p.b, "k": p.k, "v": 0, "hd": hd})
 					nn, err := f.ReadAt(buf, int64(p.b*bs))
 					res := blockVals(buf[:nn], bs)
 					for len(res) < p.k {
 						res = append(res, -2) // short read: cannot happen inside the extent
 					}
 					tr.emit("LRet", kv{"g": g, "n": n, "res": res, "err": errStr(err)})
+				case "P":
+					buf := make([]byte, p.k*bs)
+					tr.emit("LCall", kv{"g": g, "n": n, "op": "P", "b": 0, "k": p.k, "v": 0, "hd": hd})
+					nn, err := f.Read(buf)
+					res := blockVals(buf[:nn], bs)
+					for len(res) < p.k {
+						res = append(res, -2)
+					}
+					tr.emit("LRet", kv{"g": g, "n": n, "res": res, "err": errStr(err)})
 				default:
-					tr.emit("LCall", kv{"g": g, "n": n, "op": "S", "b": 0, "k": 0, "v": 0})
+					tr.emit("LCall", kv{"g": g, "n": n, "op": "S", "b": 0, "k": 0, "v": 0, "hd": hd})
 					fi, err := f.Stat()
 					sz := -1
 					if err == nil {
